@@ -19,6 +19,11 @@ Polynomial/rational identities are decided exactly; identities through sqrt/abs/
 interpretation of the lifted terms over real vertex coordinates (both orientations are sampled).
 C07-guard: the affine-only formulas are guarded (non-affine cells return the node unlowered or
 raise), and preserved types are returned unchanged.
+
+C07-shape  the `ufl_shape` property of every geometric quantity class of ufl/geometry.py is interpreted from source on
+           every cell kind in every admissible geometric dimension (immersed cells included) and compared with the
+           shape its definition gives (physical vectors in R^gdim, reference ones in R^tdim, one row per entity): the
+           extents of the index sums in the lowered expressions come from these declarations.
 """
 
 from __future__ import annotations
@@ -306,6 +311,68 @@ class Lowering:
         return h, self.ip.call_function(h.func, [o], {}, self_obj=self.selfobj), o
 
 
+# declared shape of every geometric quantity, from its definition: physical vectors live in R^gdim, reference ones in
+# R^tdim; Jacobians map reference to physical directions; the facet / ridge variants lose one / two reference
+# directions; per-entity tables have one row per entity (g, t = geometric / topological dimension; nv, ne, nfe =
+# vertices, edges, edges of a facet)
+SHAPES = {
+    "SpatialCoordinate": "g", "CellCoordinate": "t", "FacetCoordinate": "t-1", "RidgeCoordinate": "t-2",
+    "CellOrigin": "g", "FacetOrigin": "g", "RidgeOrigin": "g", "CellFacetOrigin": "t", "CellRidgeOrigin": "t",
+    "Jacobian": "g,t", "FacetJacobian": "g,t-1", "RidgeJacobian": "g,t-2",
+    "CellFacetJacobian": "t,t-1", "CellRidgeJacobian": "t,t-2", "FacetRidgeJacobian": "t-1,t-2",
+    "ReferenceCellEdgeVectors": "ne,t", "ReferenceFacetEdgeVectors": "nfe,t",
+    "CellVertices": "nv,g", "CellEdgeVectors": "ne,g", "FacetEdgeVectors": "nfe,g",
+    "JacobianInverse": "t,g", "FacetJacobianInverse": "t-1,g", "RidgeJacobianInverse": "t-2,g",
+    "CellFacetJacobianInverse": "t-1,t", "CellRidgeJacobianInverse": "t-2,t",
+    "FacetNormal": "g", "CellNormal": "g", "ReferenceNormal": "t",
+}  # fmt: skip
+CELLS = {  # name: (tdim, vertices, edges, edges of a facet)
+    "interval": (1, 2, 1, 0), "triangle": (2, 3, 3, 1), "quadrilateral": (2, 4, 4, 1), "tetrahedron": (3, 4, 6, 3), "hexahedron": (3, 8, 12, 4),
+}  # fmt: skip
+
+
+def check_declared_shapes(ctx, rep):
+    """C07-shape: the `ufl_shape` property of every geometric quantity class interpreted from source on every cell kind
+    and every admissible geometric dimension (immersed cells included), compared with the table above."""
+    from ..lift import Interp
+
+    prog = ctx.prog
+    mod = prog.module("ufl.geometry")
+    declared = {c.name: c for c in mod.classes.values() if "ufl_shape" in c.methods}
+    unknown = sorted(set(declared) - set(SHAPES))
+    if unknown:
+        raise AnalysisError(f"geometric quantities with a declared shape that the oracle table does not know: {unknown}")
+    missing = sorted(set(SHAPES) - set(declared))
+    if missing:
+        raise AnalysisError(f"geometric quantity classes vanished (anchor): {missing}")
+    for cname, (t, nv, ne, nfe) in CELLS.items():
+        for g in range(t, 4):
+            facet = Obj("cell", num_edges=nfe, cellname="facet of " + cname)
+            facet.attrs["__class__"] = None
+            ucell = Obj("cell", cellname=cname, topological_dimension=t, num_vertices=nv, num_edges=ne, facet_types=(facet,), num_facet_edges=nfe)
+            ucell.attrs["__class__"] = None
+            dom = Obj("domain", geometric_dimension=g, topological_dimension=t, ufl_cell=lambda ucell=ucell: ucell)
+            dom.attrs["__class__"] = None
+            env = dict(g=g, t=t, nv=nv, ne=ne, nfe=nfe)
+            for name, K in declared.items():
+                want = tuple(eval(x, {}, env) for x in SHAPES[name].split(","))
+                if any(d < 0 for d in want) or (name in ("FacetEdgeVectors", "ReferenceFacetEdgeVectors") and t < 3):
+                    continue  # the quantity does not exist on this cell (no ridges / facet edges)
+                ip = Interp(prog)
+                ip.overrides["extract_unique_domain"] = lambda o, **k: dom
+                o = Obj(name, __class__=K, _domain=dom)
+                fn = K.methods["ufl_shape"]
+                try:
+                    got = tuple(ip.call_function(fn, [], {}, self_obj=o))
+                except LiftRaise as ex:
+                    rep.violation("C07-shape", fn, f"{name}.ufl_shape on {cname} in R^{g}", f"{name}.ufl_shape raises on a {cname} in R^{g}: {ex.what[:100]}")
+                    continue
+                if got == want:
+                    rep.ok("C07-shape", fn, f"{name} on {cname} in R^{g}: shape {got}")
+                else:
+                    rep.violation("C07-shape", fn, f"{name}.ufl_shape on {cname} in R^{g}", f"{name} declares shape {got} on a {cname} (tdim {t}) in R^{g}; by its definition ({SHAPES[name]}) it has shape {want}: sums over its axes in the lowered expressions run over the wrong range")
+
+
 def run(ctx) -> Report:
     rep = Report("C07")
     prog = ctx.prog
@@ -561,6 +628,8 @@ def run(ctx) -> Report:
             rep.ok("C07-guard/preserve", h.func, f"{t.name} listed in preserve_types is returned unchanged")
         else:
             rep.violation("C07-guard/preserve", h.func, f"{t.name} with preserve flag", f"{t.name} is lowered although it is listed in preserve_types")
+    check_declared_shapes(ctx, rep)
+    rep.require_min("C07-shape", 150)
     rep.require_min("C07-form", 150)
     rep.require_min("C07-guard", 30)
     rep.explanation = (
